@@ -20,6 +20,7 @@ type Engine struct {
 	sv           *Solver
 	globals      map[*ssa.Global]ObjID
 	sentinels    map[*ssa.Global]ObjID
+	uuidN        int
 	Paths        int
 	Completed    int
 	Violations   []Violation
